@@ -1,6 +1,232 @@
 package consim
 
-import "verif/simcore"
+import (
+	"fmt"
+	"sort"
+	"time"
 
-func (s *sim) nextSync(rng *simcore.RNG) simcore.Op { return nil }
-func (s *sim) applyGST() bool                        { return false }
+	"verif/simcore"
+)
+
+// applyGST switches the run to its synchronous suffix: partitions healed, clocks not
+// behind, crashed nodes restarted, no more crashes; from now on nextSync delivers every
+// message a correct node holds to every other correct node before any timeout fires.
+func (s *sim) applyGST() bool {
+	if s.gst {
+		return false
+	}
+	s.gst = true
+	for i := range s.group {
+		s.group[i] = 0
+	}
+	for _, n := range s.nodes {
+		n.skew = 0
+		n.mu.Lock()
+		n.crashAt = 0
+		n.mu.Unlock()
+	}
+	s.armed = map[int]simcore.Op{}
+	s.env.Count("op.gst")
+	if s.opsLeft < 4000 {
+		s.opsLeft = 4000
+	}
+	return true
+}
+
+// recordGST fixes the termination bound once every correct node is up again.
+func (s *sim) recordGST() {
+	gi := &gstInfo{rmin: 1 << 30}
+	for _, n := range s.nodes {
+		rs := n.cs.GetRoundState()
+		if rs.Height > gi.height {
+			gi.height = rs.Height
+		}
+	}
+	for _, n := range s.nodes {
+		rs := n.cs.GetRoundState()
+		r := int32(0)
+		if rs.Height == gi.height {
+			r = rs.Round
+		}
+		if r > gi.rmax {
+			gi.rmax = r
+		}
+		if r < gi.rmin {
+			gi.rmin = r
+		}
+	}
+	f := int32(len(s.byz))
+	// see DESIGN.md C03: a deliberately loose bound, not a tight one
+	gi.deadline = gi.rmax + 2*(gi.rmax-gi.rmin) + 2*(f+1) + 2
+	s.gstInfo = gi
+	s.env.Logf("gst height=%d rmax=%d rmin=%d bound=%d", gi.height, gi.rmax, gi.rmin, gi.deadline)
+}
+
+// nextSync is the scheduler of the synchronous suffix: deterministic given the state,
+// except for what the Byzantine validators do.
+func (s *sim) nextSync(rng *simcore.RNG) simcore.Op {
+	for _, n := range s.nodes {
+		if !n.isAlive() {
+			n.mu.Lock()
+			starting := n.starting
+			n.mu.Unlock()
+			if !starting {
+				return simcore.Op{"a": "restart", "node": n.idx}
+			}
+		}
+	}
+	if s.gstInfo == nil {
+		s.recordGST()
+	}
+	gi := s.gstInfo
+	done := true
+	for _, n := range s.nodes {
+		if n.bstore.Height() < gi.height {
+			done = false
+		}
+	}
+	if done {
+		return nil
+	}
+	if bop := s.nextByz(rng, rng.Intn(1000)); bop != nil {
+		return bop
+	}
+	items := s.deliverables()
+	if len(items) > 0 {
+		sort.Slice(items, func(i, j int) bool { return items[i].key() < items[j].key() })
+		return items[0].op()
+	}
+	// nothing left to deliver: the earliest timeout fires
+	var best *simNode
+	var bestAt time.Time
+	for _, n := range s.nodes {
+		if n.ticker == nil {
+			continue
+		}
+		ti, at, ok := n.ticker.Pending()
+		if !ok {
+			continue
+		}
+		exp := at.Add(ti.Duration)
+		if best == nil || exp.Before(bestAt) {
+			best, bestAt = n, exp
+		}
+	}
+	if best != nil {
+		dt := time.Until(bestAt)
+		if dt < 0 {
+			dt = 0
+		}
+		return simcore.Op{"a": "timeout", "node": best.idx, "dt": int(dt / time.Millisecond)}
+	}
+	s.idleNext++
+	if s.idleNext > 6 {
+		return nil // nothing will ever happen again (the oracle has judged the stall)
+	}
+	return simcore.Op{"a": "sleep", "ms": 100, "idle": true}
+}
+
+// checkTermination is the C03 oracle, evaluated after every step of the synchronous suffix.
+func (s *sim) checkTermination(idle bool) {
+	if s.gstInfo == nil {
+		for _, n := range s.nodes {
+			if !n.isAlive() {
+				return
+			}
+		}
+		s.recordGST()
+	}
+	gi := s.gstInfo
+	prop := "C03"
+	if !s.env.Checking("C03") {
+		prop = "C05" // "after any restart ... the node goes on committing"
+	}
+	if gi == nil || !s.env.Checking(prop) {
+		return
+	}
+	all := true
+	for _, n := range s.nodes {
+		if !n.isAlive() {
+			return
+		}
+		if n.bstore.Height() < gi.height {
+			all = false
+		}
+	}
+	if all {
+		s.env.Count("probe.terminated_after_gst")
+		return
+	}
+	// Precondition of the property: validators with more than two thirds of the power are
+	// correct. A node whose signer refused a signature at this height (it had signed
+	// something else before a crash and lost the record of why) is mute for those rounds:
+	// it counts as faulty here.
+	vals := s.nodes[0].cs.GetRoundState().Validators
+	var faulty, total int64
+	nf := int32(len(s.byz))
+	for _, v := range vals.Validators {
+		total += v.VotingPower
+		for _, b := range s.byz {
+			if string(b.addr) == string(v.Address) {
+				faulty += v.VotingPower
+			}
+		}
+		for _, n := range s.nodes {
+			if string(n.addr) == string(v.Address) && s.refused[n.idx][gi.height] {
+				faulty += v.VotingPower
+				nf++
+			}
+		}
+	}
+	if 3*faulty >= total {
+		s.env.Count("probe.liveness_precondition_unmet")
+		return
+	}
+	bound := gi.rmax + 2*(gi.rmax-gi.rmin) + 2*(nf+1) + 2
+	if bound > gi.deadline {
+		gi.deadline = bound
+	}
+	for _, n := range s.nodes {
+		rs := n.cs.GetRoundState()
+		if rs.Height == gi.height && rs.Round > gi.deadline {
+			s.env.Fail(prop, "no-termination", "node %d entered round %d of height %d after the synchrony point (rounds at GST: max %d min %d, %d Byzantine validators, bound %d) and height %d is still undecided at some correct node", n.idx, rs.Round, gi.height, gi.rmax, gi.rmin, len(s.byz), gi.deadline, gi.height)
+		}
+	}
+	if idle {
+		// verify idleness here: a replayed (reduced) trace must not be trusted on it
+		if len(s.deliverables()) > 0 {
+			idle = false
+		}
+		for _, n := range s.nodes {
+			if n.ticker != nil {
+				if _, _, ok := n.ticker.Pending(); ok {
+					idle = false
+				}
+			}
+		}
+	}
+	if idle {
+		s.idleSteps++
+		if s.idleSteps > 3 {
+			desc := ""
+			for _, n := range s.nodes {
+				rs := n.cs.GetRoundState()
+				desc += fmt.Sprintf(" n%d:%d/%d/%d(store %d)", n.idx, rs.Height, rs.Round, rs.Step, n.bstore.Height())
+			}
+			s.env.Fail(prop, "stall", "after the synchrony point nothing is deliverable and no timeout is pending, but height %d is undecided at some correct node:%s", gi.height, desc)
+		}
+	} else {
+		s.idleSteps = 0
+	}
+}
+
+// noteRefusal records that a node's signer refused to sign at a height.
+func (s *sim) noteRefusal(n *simNode, h int64) {
+	if s.refused == nil {
+		s.refused = map[int]map[int64]bool{}
+	}
+	if s.refused[n.idx] == nil {
+		s.refused[n.idx] = map[int64]bool{}
+	}
+	s.refused[n.idx][h] = true
+}
